@@ -117,6 +117,26 @@ def generate(rng, tier="quick"):
                 steps.append(l1[i1]); i1 += 1
     scn = {"property": PROP, "config": {"psets": psets, "nodes": nodes}, "steps": steps,
            "mode": mode, "sched_seed": rng.randrange(1 << 30)}
+    if rng.random() < 0.12:
+        # applications that build their parameter sets per connection: every session owns a private
+        # _Params object that dies with its instance (addresses are handed out again)
+        scn["config"]["ephemeral_params"] = True
+    if mode == "coop" and rng.random() < 0.15:
+        nest_calls(rng, scn)
+    if mode == "coop" and rng.random() < 0.15:
+        # fault: one or two sessions have a library call aborted at an arbitrary instant (injected
+        # MemoryError / KeyboardInterrupt).  The aborted sessions are neighbours only - nothing is
+        # demanded of them afterwards -; every OTHER session and the shared objects are judged as usual.
+        ab = sorted(rng.sample(range(len(nodes)), rng.choice([1, 1, 2]) if len(nodes) > 2 else 1))
+        new = []
+        for st in scn["steps"]:
+            o = owner(st)
+            if o in ab and st["op"] in ("start", "deliver", "serialize", "persist", "recover") and rng.random() < 0.5 \
+                    and not st.get("nested"):
+                st = dict(st, interrupt=gen.gen_interrupt(rng))
+            new.append(st)
+        scn["steps"] = new
+        scn["aborted_nodes"] = ab
     if mode == "threads":
         scn["mean_gap"] = rng.choice([5, 20, 50, 200, 500, 5000, 0])
         scn["max_preempt"] = 40
@@ -127,6 +147,57 @@ def generate(rng, tier="quick"):
             scn["site_targets"] = rng.choice([3, 6, 12])
             scn["run_long"] = rng.choice([0, 300, 3000, 100000])
     return scn
+
+
+def nest_calls(rng, scn):
+    """interleaving at the entropy seam: the start() (and possibly following calls) of another session
+    runs INSIDE the entropy read of a session's start() - same thread, nested call stacks"""
+    steps = scn["steps"]
+    pos = {}
+    for i, st in enumerate(steps):
+        if st["op"] in ("boot", "start") and "n" in st:
+            pos.setdefault((st["op"], st["n"]), i)
+    cands = []
+    for (op, i), si in pos.items():
+        if op != "start":
+            continue
+        for (op2, j), sj in pos.items():
+            if op2 == "start" and j != i and sj > si and pos.get(("boot", j), 1 << 30) < si:
+                cands.append((i, j))
+    if not cands:
+        return
+    cands.sort()
+    i, j = cands[rng.randrange(len(cands))]
+    si, sj = pos[("start", i)], pos[("start", j)]
+    inner = [steps[sj]]
+    take = rng.choice([0, 0, 1, 2])
+    k = sj + 1
+    drop = [sj]
+    while take and k < len(steps):
+        st = steps[k]
+        if owner(st) == j and st["op"] in ("serialize", "persist", "crash", "recover"):
+            inner.append(st)
+            drop.append(k)
+            take -= 1
+        elif owner(st) == j:
+            break
+        k += 1
+    new = [st for t, st in enumerate(steps) if t not in drop]
+    new[si] = dict(new[si], nested=inner)
+    scn["steps"] = new
+    scn["fixed_order"] = True           # schedule B = the same order again, in the now-used process
+
+
+def flat_steps(steps):
+    out = []
+    for st in steps:
+        if st.get("nested"):
+            st2 = {k: v for k, v in st.items() if k != "nested"}
+            out.append(st2)
+            out.extend(st["nested"])
+        else:
+            out.append(st)
+    return out
 
 
 # ------------------------------------------------------------------------------------------
@@ -401,13 +472,14 @@ def interleaved_job(scn):
                                  scn.get("max_preempt", 40), scn.get("long_jump", 0))
         else:
             wa = run_coop(cfg, steps)
-            wb = run_coop(cfg, steps, scn["sched_seed"])
+            wb = run_coop(cfg, steps, None if scn.get("fixed_order") else scn["sched_seed"])
         after = shared_snapshot(cfg)
         nn = len(cfg["nodes"])
         return {"A": [node_record(wa, i) for i in range(nn)], "B": [node_record(wb, i) for i in range(nn)],
                 "before": before, "after": after,
                 "evA": [[e["op"], e["n"], e["out"], e["d"]] for e in wa.events], "digA": sim.log_digest(wa), "digB": sim.log_digest(wb),
                 "ticks": wa.tick + wb.tick, "skipped": wa.skipped + wb.skipped,
+                "fired": {k: wa.fired.get(k, 0) + wb.fired.get(k, 0) for k in sorted(set(wa.fired) | set(wb.fired))},
                 "stats": [getattr(wa, "sched_stats", None), getattr(wb, "sched_stats", None)]}
     return job
 
@@ -417,7 +489,7 @@ def isolated_job(scn, i, wires):
         cfg = {"psets": scn["config"]["psets"], "nodes": [copy.deepcopy(scn["config"]["nodes"][i])]}
         steps = []
         k = 0
-        for s in scn["steps"]:
+        for s in flat_steps(scn["steps"]):
             if owner(s) != i:
                 continue
             s = dict(s)
@@ -461,6 +533,7 @@ def execute(scn):
     cfg = scn["config"]
     res = in_child(interleaved_job(scn))
     R.tick, R.skipped = res["ticks"], res["skipped"]
+    R.fired = dict(res.get("fired") or {})
     nn = len(cfg["nodes"])
     R.probe("mode:" + mode)
     if nn >= 4:
@@ -496,7 +569,12 @@ def execute(scn):
             # module-level data changed (a memo, a table): not what the property forbids by itself;
             # counted so that a reader of the evidence sees it
             R.probe("module-level-data-changed")
+    aborted = set(scn.get("aborted_nodes") or [])
+    if aborted:
+        R.probe("aborted-neighbour-sessions", len(aborted))
     for i in range(nn):
+        if i in aborted:
+            continue            # a session the simulator aborted midway: a neighbour, not judged
         a, b = res["A"][i], res["B"][i]
         iso = in_child(isolated_job(scn, i, a["wires"]))
         cls = cfg["nodes"][i]["cls"]
